@@ -298,7 +298,7 @@ Print Assumptions session_with_comment_blocks.
 
 (* byte-order mark: transparent when the test is made against the line number the first line has
    (1); with the test the source has now (0, after the increment: never true) a valid transaction
-   on the first line is dropped and its posting reported - finding F140 *)
+   on the first line is dropped and its posting reported - finding F1201 *)
 Theorem bom_transparent_when_stripped : bom_test_linenum = 1 -> forall file chain xs,
   xparse_file src_rd file chain true xs = xparse_file src_rd file chain false xs.
 Proof. intros H file chain xs. apply bom_stripped_transparent. exact H. Qed.
@@ -311,7 +311,7 @@ Proof. intros H. exists bom_witness. exact (proj2 (bom_not_stripped_refuted src_
 Print Assumptions bom_valid_first_line_refuted.
 
 (* over-long line: as the source stands the message names the line before it and the file's
-   loop ends, so the unbalanced transaction after it is never reported - finding F141; with the
+   loop ends, so the unbalanced transaction after it is never reported - finding F1202; with the
    throw after the increment and the rest of the line skipped both are located *)
 Theorem long_line_hides_later_items_refuted : long_line_counted = false -> long_line_recovers = false ->
   s_msgs (xparse_file src_rd 1 [] false long_witness) = [mk_msg [] 1 1 k_long None].
